@@ -61,6 +61,12 @@ CHECKS = {
  "C15": ("mc-sl", "explicit-state BFS over mark / delete / maintain / allocator-maintain / save / load histories on the real World",
          "All states within depth 7/8 and 4/5 entity creations (creations made by loads included) over create (immediate, deferred), mark, set component, delete (immediate, deferred), maintain, allocator.maintain, serialise, deserialise of the world's own output and of two canned data sets from another world (one with ids above the counter); after every transition: live entities carry pairwise distinct marker ids, marking a marked entity returns its marker, a load updates known ids in place (same handle, components replaced, absent ones removed), creates entities only for unknown ids, touches nothing else, and the serialised bytes equal the model's.",
          "DESIGN.md §4 C15"),
+ "C18": ("c18gen (tools/gen_derive.py + generated crate)", "program enumeration: every type definition of a bounded shape grammar compiled with the real derive macros, every value of a small domain checked against a generator-computed field-wise oracle",
+         "About 520 (quick) / 2500 (thorough) generated type definitions: named and tuple structs and enums with unit, tuple and named variants, 1-3 fields over Entity, u32, String, nested derived types, tuple, array, a type parameter (instantiated with Entity and u32) and fields that skip conversion (with and without a forwarded serde attribute), repeated types in every position, widths 10-12 with position-identifying values; for every value: convert_into must produce exactly the field-wise JSON computed by the generator, and JSON round trip + convert_from through a non-identity marker mapping must give the field-wise expected value; derive(Component): every storage attribute form x storage kind, generic and non-generic, checked by TypeId. A shape the derive no longer compiles is reported as a violation naming the type.",
+         "DESIGN.md §4 C18"),
+ "C20": ("mc-det", "differential exhaustive exploration: every history of the quick-bound explorations executed twice (in-process, with an unrelated world in between) and digests recomputed in fresh processes",
+         "Every history of the entity (E1), component (E2), lazy (E3), tracked-storage (hash-backed and dense kinds) and save/load explorations at reduced bounds, and every 3-entity save/load round trip with explicit marker ids, is executed twice in the same process — an unrelated world incl. caught destructor panics runs in between and the second execution follows unrelated allocations — and the complete transcripts (operation results, handles, join orders, event streams, serialised bytes, enabled operations, state keys) are compared; the folded transcript digests are recomputed in two fresh processes (new hash seeds, new address layout) and compared.",
+         "DESIGN.md §4 C20"),
 }
 
 NOTE = "Bounded exhaustive exploration of the real implementation (no separate model to drift); trusted: hibitset, shred, shrev, crossbeam-queue, rayon, serde as dependencies; bounds are stated in the evidence file."
@@ -81,10 +87,10 @@ def main():
             "technique": tech,
         })
     all_ids = [f"C{i:02d}" for i in range(1, 21)]
-    na = [{"property_id": p, "reason": "check not built yet in this session (planned, see DESIGN.md §4)"} for p in all_ids if p not in CHECKS]
+    na = [{"property_id": p, "reason": "check not built yet (planned, see DESIGN.md §4)"} for p in all_ids if p not in CHECKS]
     m = {
         "version": 1,
-        "setup_cmd": "cd /verif/mc && CARGO_NET_OFFLINE=true cargo build --release --bins",
+        "setup_cmd": "/verif/tools/setup.sh",
         "hooks": {
             "guard": "--cfg specs_verif",
             "enable": "RUSTFLAGS='--cfg specs_verif' via /verif/mc/.cargo/config.toml; harness crate depends on specs by path = /repo",
@@ -98,6 +104,8 @@ def main():
             {"name": "mc-conc", "path": "/verif/mc/src/conc.rs", "serves_properties": ["C10","C17"], "kind_free_text": "CHESS-style preemption-bounded schedule enumeration; shuttle coroutines, custom scheduler, yield points compiled into specs under cfg(specs_verif)"},
             {"name": "mc-disp", "path": "/verif/mc/src/disp.rs", "serves_properties": ["C11"], "kind_free_text": "graph enumeration; model = stage structure printed by the real builder; gated replay on the real dispatcher"},
             {"name": "mc-sl", "path": "/verif/mc/src/sl.rs", "serves_properties": ["C14","C15"], "kind_free_text": "world enumeration through real round trips; BFS over save/load histories"},
+            {"name": "c18gen", "path": "/verif/tools/gen_derive.py", "serves_properties": ["C18"], "kind_free_text": "generator of a crate of derived types + field-wise oracle; compiled against /repo's specs-derive"},
+            {"name": "mc-det", "path": "/verif/mc/src/det.rs", "serves_properties": ["C20"], "kind_free_text": "differential double execution of the history engines, cross-process digest comparison"},
             {"name": "mc-store", "path": "/verif/mc/src/store.rs", "serves_properties": ["C04","C08","C12","C19"], "kind_free_text": "explicit-state BFS over storage histories; ledger tokens; destructor-panic injection"},
         ],
         "checks": checks,
